@@ -395,6 +395,7 @@ func c04OmitValueField(a *c04X, elem string) bool {
 	if !found {
 		return false
 	}
+	matchedParent := false
 	for _, t := range gv.U().Structs {
 		tt := ttlv.VerifTagForType(t)
 		isItem := (t.Name() == "RequestBatchItem" || t.Name() == "ResponseBatchItem") && ptag == kmip.TagBatchItem
@@ -402,13 +403,31 @@ func c04OmitValueField(a *c04X, elem string) bool {
 		if tt != ptag && !isItem && !isPayload {
 			continue
 		}
+		matchedParent = true
 		for _, f := range gv.Fields(t) {
 			if f.Plan.Tag == etag && f.Plan.OmitEmpty && f.SF.Type.Kind() != reflect.Pointer {
 				return true
 			}
 		}
 	}
-	return false
+	if matchedParent {
+		return false
+	}
+	// the parent element does not name its structure (an attribute value, a credential value, key
+	// material: the structure is written under the tag of the position it sits in): the element is in
+	// the class when EVERY structure that has an element with this tag declares it an omitempty value field
+	n, all := 0, true
+	for _, t := range gv.U().Structs {
+		for _, f := range gv.Fields(t) {
+			if f.Plan.Tag == etag {
+				n++
+				if !(f.Plan.OmitEmpty && f.SF.Type.Kind() != reflect.Pointer) {
+					all = false
+				}
+			}
+		}
+	}
+	return n > 0 && all
 }
 
 // the input class of a difference, for the failure signature
